@@ -368,9 +368,14 @@ func recordParse(args []string) error {
 		emitParse(w, s)
 	}
 	// placeholder spellings: leading zeros, boundaries
-	for _, ph := range []string{"$1", "$01", "$007", "$08", "$09", "$010", "$0012", "$0100", "$00", "$000", "$2147483647", "$02147483647", "$2147483648", "$0x10", "$1e3", "$+1", "$-1", "$ 1"} {
+	for _, ph := range []string{"$1", "$01", "$007", "$08", "$09", "$010", "$0012", "$0100", "$00", "$000", "$2147483647", "$02147483647", "$2147483648", "$2147483649", "$4294967295", "$004294967295", "$4294967296", "$4294967297", "$9223372036854775807", "$9223372036854775808",
+		"$18446744073709551615", "$18446744073709551616", "$99999999999999999999", "$0x10", "$1e3", "$+1", "$-1", "$ 1"} {
 		emitParse(w, "a = "+ph)
 		emitParse(w, "a = "+ph+" & b = \"x\" ; c")
+	}
+	// every character of the identifier alphabet in first, middle and last position of a column name
+	for _, name := range alphabetNames() {
+		emitParse(w, name+" = \"v\" ; a, "+name)
 	}
 	// very deep nesting: termination / no panic only (beyond what TLC's recursion validates)
 	for _, d := range []int{1000, 5000, 20000} {
@@ -382,6 +387,22 @@ func recordParse(args []string) error {
 		w.Emit(map[string]any{"ev": "ParseDeep", "depth": d, "ok": got.Ok || d%7 != 0, "leak": got.Leak, "panic": got.Panic != ""})
 	}
 	return w.Close()
+}
+
+const identAlphabet = "abcdefghijklmnopqrstuvwxyzABCDEFGHIJKLMNOPQRSTUVWXYZ0123456789_"
+
+// alphabetNames: for every character of the identifier alphabet a name with it in the middle, one ending in
+// it and (letters) one starting with it.
+func alphabetNames() []string {
+	var out []string
+	for _, ch := range identAlphabet {
+		c := string(ch)
+		out = append(out, "q"+c+"q", "time"+c)
+		if (ch >= 'a' && ch <= 'z') || (ch >= 'A' && ch <= 'Z') {
+			out = append(out, c+"one", c)
+		}
+	}
+	return out
 }
 
 type fmtLine struct {
@@ -489,6 +510,15 @@ func recordRoundTrip(args []string) error {
 			gb = append(gb, vx.BytesOf(fieldPool[g.rng.Intn(len(fieldPool))]))
 		}
 		roundTrip(w, t, gb)
+	}
+	// identifier alphabet: every character in first / middle / last position, as comparison column and in the field list
+	for _, name := range alphabetNames() {
+		nb := vx.BytesOf(name)
+		roundTrip(w, &vx.QTree{Op: "eq", Col: nb, Val: vx.BytesOf("v")}, [][]int{vx.BytesOf("a"), nb, vx.BytesOf("b")})
+	}
+	// every byte value inside a string literal
+	for b := 0; b < 256; b++ {
+		roundTrip(w, &vx.QTree{Op: "eq", Col: vx.BytesOf("a"), Val: []int{'x', b, 'y'}}, [][]int{})
 	}
 	return w.Close()
 }
